@@ -5,8 +5,8 @@
 (* prints the cases (C11CASE lines) with Eval, PlanEval of the code as written and the explaining deviation rules. *)
 EXTENDS MC_TraceQL
 cDay == <<0, 0, 1, 1, 1, 2>>
-cLayers == {"term", "bool", "agg", "chain", "win"}
-cMods == [term |-> 1, bool |-> 1, agg |-> 1, chain |-> 1, win |-> 1, rand |-> 1]
-cFlags == {"distinct"}   \* = tools/props/c11.py CODE_DEVIATIONS (AllFlags = the planner of the pinned tree, before the repairs)
+cLayers == {"term", "bool", "agg", "chain", "win", "portion"}
+cMods == [term |-> 1, bool |-> 1, agg |-> 1, chain |-> 1, win |-> 1, portion |-> 1, rand |-> 1]
+cFlags == {"distinct", "portion_from"}   \* = tools/props/c11.py CODE_DEVIATIONS (AllFlags = the planner of the pinned tree, before the repairs)
 cRand == {}
 ====
